@@ -99,8 +99,10 @@ def classify(rc, gens, msg, prefix):
     if m: return "stale:" + hx(rel(m.group(1), prefix).encode())
     return None
 
-MUTS = ["identical"] * 12 + ["missing", "missing", "dir", "alter", "alter", "alter", "crlf_all", "crlf_all", "crlf_some",
-        "crlf_some", "strip_final_nl", "add_final_nl", "crlf_ctrl", "invalid_utf8", "crlf_invalid", "empty", "cr_only", "add_blank_line"]
+NONIDENT = ["missing", "missing", "dir", "alter", "alter", "flip", "truncate", "crlf_all", "crlf_all", "crlf_some",
+            "crlf_some", "strip_final_nl", "add_final_nl", "crlf_ctrl", "invalid_utf8", "ff_inside", "lone_lead", "lone_cont",
+            "trunc_multibyte", "crlf_invalid", "empty", "cr_only", "add_blank_line"]
+MUTS = ["identical"] * 14 + NONIDENT
 
 def mutate(rng, kind, b):
     if kind == "identical": return b
@@ -112,6 +114,16 @@ def mutate(rng, kind, b):
         if r < 0.6: return b + b"x"
         if r < 0.8: return b[:i]
         return b"//x\n" + b
+    if kind == "flip":                       # one byte changed (also for binary outputs)
+        if not b: return b"x"
+        i = rng.randrange(len(b)); return b[:i] + bytes([b[i] ^ 0x20]) + b[i + 1:]
+    if kind == "truncate": return b[:len(b) // 2]
+    if kind == "ff_inside":                  # one byte replaced by 0xFF: never valid UTF-8
+        if not b: return b"\xff"
+        i = rng.randrange(len(b)); return b[:i] + b"\xff" + b[i + 1:]
+    if kind == "lone_lead": return b + b"\xc3"      # a lead byte without continuation
+    if kind == "lone_cont": return b + b"\x80"      # a continuation byte without lead
+    if kind == "trunc_multibyte": return b + "€".encode()[:2]   # a 3-byte sequence cut after 2 bytes
     if kind == "crlf_all": return b.replace(b"\n", b"\r\n")
     if kind == "crlf_some":
         parts = b.split(b"\n")
@@ -247,10 +259,17 @@ def run(c):
                     sc = os.path.join(base, f"s{s}")
                     shutil.copytree(os.path.join(base, "wit"), os.path.join(sc, "wit"))
                     shutil.copytree(os.path.join(base, "out"), os.path.join(sc, "out"))
-                    all_ident = c.rng.random() < 0.25 if fixed is None else all(k == "identical" for k in fixed)
+                    all_ident = c.rng.random() < 0.2 if fixed is None else all(k == "identical" for k in fixed)
+                    # a third of the random scenarios perturb exactly one file, so that every output - text or
+                    # binary, early or late in the iteration order - gets to decide the outcome on its own
+                    only = c.rng.randrange(len(names0)) if (fixed is None and not all_ident and c.rng.random() < 0.4) else None
+                    if only is not None: stats["single_file_scenarios"] = stats.get("single_file_scenarios", 0) + 1
                     muts = {}
                     for fi, n in enumerate(sorted(names0, key=lambda s_: s_.encode())):
-                        kind = ("identical" if all_ident else c.rng.choice(MUTS)) if fixed is None else fixed[fi % len(fixed)]
+                        if fixed is not None: kind = fixed[fi % len(fixed)]
+                        elif all_ident: kind = "identical"
+                        elif only is not None: kind = c.rng.choice(NONIDENT) if fi == only else "identical"
+                        else: kind = c.rng.choice(MUTS)
                         p = os.path.join(sc, "out", n)
                         b = open(p, "rb").read()
                         nb = mutate(c.rng, kind, b)
@@ -290,7 +309,13 @@ def run(c):
                         p = os.path.join(sc, "out", n)
                         cur = open(p, "rb").read() if os.path.isfile(p) else None
                         try: exp.decode("utf-8")
-                        except UnicodeDecodeError: stats["nonutf8_expected_files"] += 1
+                        except UnicodeDecodeError:
+                            stats["nonutf8_expected_files"] += 1
+                            if muts.get(n, "identical") != "identical":
+                                stats["binary_outputs_perturbed"] = stats.get("binary_outputs_perturbed", 0) + 1
+                        if cur is not None and cur != exp:
+                            try: cur.decode("utf-8")
+                            except UnicodeDecodeError: stats["nonutf8_existing_files"] = stats.get("nonutf8_existing_files", 0) + 1
                         toks.append(hx(n.encode()) + ":" + hx(exp) + ":" + ("!" if cur is None else hx(cur)))
                     before = snapshot(sc)
                     crc, cgens, cmsg, cerr = run_cli(binp, args + ["--check"], cwd_of(sc))
